@@ -15,7 +15,8 @@ IsPanic(res) == Has(res, "err") /\ res.err = "panic"
 JudgeSer(e) ==
   LET plain == Enc(e.shape, e.value)
       fits == e.fail_at < 0 \/ e.fail_at >= Len(plain)
-      good == IF fits THEN e.res.ok = 1 /\ e.written = plain /\ e.flushed >= 1
+      good == IF fits /\ e.flush_fail = 1 THEN e.res.ok = 0 /\ ~IsPanic(e.res) /\ e.written = plain /\ e.flushed >= 1      \* a failing flush is a failing writer
+              ELSE IF fits THEN e.res.ok = 1 /\ e.written = plain /\ e.flushed >= 1
               ELSE e.res.ok = 0 /\ ~IsPanic(e.res) /\ IsPrefix(e.written, plain) /\ Len(e.written) <= e.fail_at
   IN [ok |-> good, exp |-> [bad |-> IF good THEN <<>> ELSE <<"io_ser">>, want |-> [plain |-> plain, must_succeed |-> fits]]]
 
